@@ -92,6 +92,58 @@ func CheckParenExpr(x ast.Expr) ast.Expr {
 	return x
 }
 
+// CheckParenCtrlExpr parenthesises the composite literals of x that the parser
+// would take for the block of an if, for or switch statement when x is part of
+// the statement's header: those not enclosed in parentheses, brackets or braces.
+func CheckParenCtrlExpr(x ast.Expr) ast.Expr {
+	switch v := x.(type) {
+	case *ast.CompositeLit:
+		return &ast.ParenExpr{X: x}
+	case *ast.SelectorExpr:
+		v.X = CheckParenCtrlExpr(v.X)
+	case *ast.IndexExpr:
+		v.X = CheckParenCtrlExpr(v.X)
+	case *ast.IndexListExpr:
+		v.X = CheckParenCtrlExpr(v.X)
+	case *ast.SliceExpr:
+		v.X = CheckParenCtrlExpr(v.X)
+	case *ast.TypeAssertExpr:
+		v.X = CheckParenCtrlExpr(v.X)
+	case *ast.CallExpr:
+		v.Fun = CheckParenCtrlExpr(v.Fun)
+	case *ast.StarExpr:
+		v.X = CheckParenCtrlExpr(v.X)
+	case *ast.UnaryExpr:
+		v.X = CheckParenCtrlExpr(v.X)
+	case *ast.BinaryExpr:
+		v.X = CheckParenCtrlExpr(v.X)
+		v.Y = CheckParenCtrlExpr(v.Y)
+	}
+	return x
+}
+
+// CheckParenCtrlStmt applies CheckParenCtrlExpr to the expressions of a simple
+// statement used as the init or post statement of an if, for or switch statement.
+func CheckParenCtrlStmt(s ast.Stmt) ast.Stmt {
+	switch v := s.(type) {
+	case *ast.ExprStmt:
+		v.X = CheckParenCtrlExpr(v.X)
+	case *ast.AssignStmt:
+		for i, x := range v.Lhs {
+			v.Lhs[i] = CheckParenCtrlExpr(x)
+		}
+		for i, x := range v.Rhs {
+			v.Rhs[i] = CheckParenCtrlExpr(x)
+		}
+	case *ast.IncDecStmt:
+		v.X = CheckParenCtrlExpr(v.X)
+	case *ast.SendStmt:
+		v.Chan = CheckParenCtrlExpr(v.Chan)
+		v.Value = CheckParenCtrlExpr(v.Value)
+	}
+	return s
+}
+
 // -----------------------------------------------------------------------------
 
 func AddrOf(v ast.Expr) ast.Expr {
